@@ -256,6 +256,27 @@ fn gen_contents(rng: &mut Rng, all: &[Spec], sp: &Spec, thorough: bool) -> Vec<(
             out.push((cls.to_string(), m));
         }
     }
+    // every prefix of a few valid contents (a content cut off after any component — exactly where a parser that indexes by
+    // position runs past the end); the full-option maximum-length contents first
+    {
+        let mut picks: Vec<&String> = out.iter().filter(|(c, _)| c == "valid_max").map(|(_, s)| s).take(if thorough { 6 } else { 1 }).collect();
+        picks.extend(out.iter().filter(|(c, _)| c == "valid_rand").map(|(_, s)| s).take(if thorough { 10 } else { 2 }));
+        let mut pre: Vec<String> = Vec::new();
+        for b in picks {
+            let cs: Vec<char> = b.chars().collect();
+            // long narratives: every prefix of the first 80 characters, then every 9th
+            for n in 0..cs.len() {
+                if n <= 80 || n % 9 == 0 || thorough {
+                    pre.push(cs[..n].iter().collect());
+                }
+            }
+        }
+        pre.sort();
+        pre.dedup();
+        for p in pre {
+            out.push(("prefix".to_string(), p));
+        }
+    }
     // random strings over the SWIFT and a non-SWIFT alphabet
     let sw: Vec<char> = "AB12/-:., \n".chars().collect();
     let ns: Vec<char> = "aZ9~^\u{e9}\u{20ac}\t\r\n/ ".chars().collect();
